@@ -3,9 +3,14 @@
 import json, os, glob
 V = os.path.dirname(os.path.dirname(os.path.abspath(__file__)))
 rows = []
+brows = []
 for mp in sorted(glob.glob(os.path.join(V, "seeded", "*", "meta.json"))):
     m = json.load(open(mp)); sid = os.path.basename(os.path.dirname(mp))
     ck = m.get("checks", {})
+    if m.get("benign"):
+        brows.append((sid, m.get("property", "?"), (m.get("summary") or "")[:260].replace("\n", " ").replace("|", "/"), "yes" if not ck.get("caught_by") else "NO: " + ", ".join(ck.get("caught_by")),
+                      m.get("corrected", "")))
+        continue
     rules = []
     for p, ls in (ck.get("reports") or {}).items():
         for l in ls[:1]:
@@ -21,4 +26,8 @@ with open(os.path.join(V, "seeded", "README.md"), "w") as f:
             "| id | property | change | needs to manifest | caught by | by its own check | first rule reported | rule added/strengthened because of it |\n|---|---|---|---|---|---|---|---|\n")
     for r in rows:
         f.write("| " + " | ".join(r) + " |\n")
-print(len(rows), "seeds")
+    f.write("\n## Behaviour-preserving refactors (must stay silent)\n\nWritten by the same kind of sub-agent (property text only) as realistic maintenance changes that keep the property; "
+            "`check.py` passes before and after. Every check must exit 0 with the patch applied.\n\n| id | property | refactor | all 19 checks silent | what had to be corrected in the checks |\n|---|---|---|---|---|\n")
+    for r in brows:
+        f.write("| " + " | ".join(r) + " |\n")
+print(len(rows), "seeds", len(brows), "benign")
